@@ -12,14 +12,42 @@ spec fn sameButUser(a url.URL, b url.URL) bool =
   a.RawPath == b.RawPath && a.OmitHost == b.OmitHost && a.ForceQuery == b.ForceQuery &&
   a.RawQuery == b.RawQuery && a.Fragment == b.Fragment && a.RawFragment == b.RawFragment
 
+// Text and JSON encodings (property C14), over content identities of texts
+// (strid); urlOK / urlCanon / jsonStrOK / jsonStrOf are the assumed
+// contracts of net/url and encoding/json.
+func Parse
+  ensures accepts: err == nil <==> (len(rawURL) > 0 && urlOK(strid(rawURL)))
+  ensures parsed: err == nil ==> u != nil && strid(urlText(u.URL)) == urlCanon(strid(rawURL))
+  ensures reparsable: err == nil ==> urlOK(strid(urlText(u.URL))) && urlCanon(strid(urlText(u.URL))) == strid(urlText(u.URL))
+  ensures rejected_is_nil: err != nil ==> u == nil
+
 func (*URL).MarshalText
   requires u != nil
+  ensures text_is_string: err == nil && strid(b) == strid(urlText(u.URL)) && len(b) == len(urlText(u.URL))
 
 func (*URL).UnmarshalText
   requires u != nil
+  modifies u.URL
+  ensures accepts: err == nil <==> (len(b) > 0 && urlOK(strid(b)))
+  ensures parsed: err == nil ==> strid(urlText(u.URL)) == urlCanon(strid(b))
+  ensures reparsable: err == nil ==> urlOK(strid(urlText(u.URL))) && urlCanon(strid(urlText(u.URL))) == strid(urlText(u.URL))
 
 func (*URL).UnmarshalJSON
   requires u != nil
+  modifies u.URL
+  ensures null_keeps: len(b) == 4 && b[0] == 'n' && b[1] == 'u' && b[2] == 'l' && b[3] == 'l' ==> err == nil && u.URL == old(u.URL)
+  ensures decodes_string: jsonStrOK(strid(b)) && len(b) >= 2 && b[0] == '"' && b[len(b) - 1] == '"' ==>
+    (err == nil ==> strid(urlText(u.URL)) == urlCanon(jsonStrOf(strid(b)))) &&
+    (urlOK(jsonStrOf(strid(b))) && jsonStrOf(strid(b)) != strid("") ==> err == nil)
+
+// The round trips of the property follow from these clauses: the text of an
+// accepted URL is accepted again (reparsable) and yields itself; through JSON
+// the decoded text is that text (jsonStrOf(jsonQuote(t)) == t, assumed of
+// encoding/json).  UnmarshalText refuses the empty text, so the round trip
+// needs the canonical text to be non-empty:
+lemma canonicalTextNonEmpty(raw int)
+  requires urlOK(raw) && raw != strid("")
+  ensures canonical_text_nonempty: urlCanon(raw) != strid("")
 
 func RedactUserinfo
   requires u != nil
